@@ -19,6 +19,7 @@ SUP = ["vp_rt.c", "valloc.c", "memloops.c", "../C03/c03_mem.c"]
 A = "A"
 PTRQ = [0xC0, 12]   # a.b (question)
 PTRC = [0xC0, 33]   # c.a.b (CNAME target, when the CNAME is the first answer)
+PTRD = [0xC0, 49]   # d.a.b (target of a second CNAME c.a.b -> d.a.b directly after the first)
 
 
 def S(text):
@@ -61,13 +62,16 @@ def rr(owner, rtype, rdata, rdlen_delta=0, rclass=1):
 def message(p, nans, cname, mal=0, foreign=False):
     """cells of the whole message; mal: 0 none, 1 drop the last byte, 2 last RDLENGTH + 1, 3 last RDLENGTH - 1"""
     pid, wtype, _ = PARSERS[p]
-    an = nans + (1 if cname else 0) + (1 if foreign else 0)
+    an = nans + int(cname) + (1 if foreign else 0)   # cname: False/True or the length of the alias chain (0..2)
     m = [A, A, 0x81, 0x80, 0, 1, 0, an, 0, 0, 0, 0]
     m += [1, ord("a"), 1, ord("b"), 0, wtype >> 8, wtype & 0xFF, 0, 1]
     owner = PTRQ
     if cname:
         m += rr(PTRQ, 5, N("c", PTRQ))
         owner = PTRC
+    if int(cname) == 2:
+        m += rr(PTRC, 5, N("d", PTRQ))
+        owner = PTRD
     if foreign:
         m += rr(owner, 99, [A, A])
     rds = rdatas(p, owner)
@@ -87,7 +91,7 @@ def job(p, nans, cname, mal=0, foreign=False, cap=0, extra=None, wit=None, suffi
     pid, wtype, tu = PARSERS[p]
     m = message(p, nans, cname, mal, foreign)
     real = REC + BASE + LEG + ["src/lib/legacy/" + tu] + (ADDR if p in ("a", "aaaa") else [])
-    name = "legacy_%s_n%d%s%s%s%s%s" % (p, nans, "_cname" if cname else "", "_foreign" if foreign else "",
+    name = "legacy_%s_n%d%s%s%s%s%s" % (p, nans, ("_cname" if cname else "") + ("2" if int(cname) == 2 else ""), "_foreign" if foreign else "",
                                         {0: "", 1: "_trunc", 2: "_rdlen+1", 3: "_rdlen-1"}[mal], "_cap%d" % cap if p in ("a", "aaaa") else "", suffix)
     d = ["-DPARSER=%d" % pid, "-DMSG=" + cells(m), "-DML=%d" % len(m), "-DCAP=%d" % cap] + (extra or [])
     if wit is None:
@@ -96,7 +100,7 @@ def job(p, nans, cname, mal=0, foreign=False, cap=0, extra=None, wit=None, suffi
     return dict(name=name, harness="legacy_agree.c", defines=d, real=real, support=SUP, unwind=140, leak=True,
                 witnesses=["end"] + wit, kf_group=kf,
                 bound="ares_parse_%s_reply on [id symbolic | Q a.b | %s%s%d x %s record(s), values symbolic]%s%s vs "
-                      "ares_dns_parse + getters" % (p, "CNAME a.b -> c.a.b, " if cname else "", "one type-99 RR, " if foreign else "",
+                      "ares_dns_parse + getters" % (p, ("CNAME a.b -> c.a.b, " if cname else "") + ("CNAME c.a.b -> d.a.b, " if int(cname) == 2 else ""), "one type-99 RR, " if foreign else "",
                                                     nans, p.upper(), {0: "", 1: " truncated by one byte", 2: " last RDLENGTH + 1",
                                                                       3: " last RDLENGTH - 1"}[mal],
                                                     " caller array of %d" % cap if p in ("a", "aaaa") else ""))
@@ -113,6 +117,9 @@ def jobs(tier, seed):
         J.append(job(p, 1, False, mal=2, cap=1 if addr else 0))
         if tier == "quick" and p in ("a", "mx", "soa"):
             J.append(job(p, 0, False, foreign=True))
+        if addr:
+            J.append(job(p, 1, 2, cap=1, extra=["-DTTL31"]))     # alias CHAIN of two: every alias reported, in order
+            J.append(job(p, 2, True, cap=1, extra=["-DTTL31"], suffix="_capacity"))   # array full AND an alias TTL to apply
         if tier != "quick":
             J.append(job(p, 2, False, cap=2 if addr else 0))
             J.append(job(p, 1, True, cap=1 if addr else 0, extra=["-DTTL31"] if addr else None))
@@ -125,8 +132,9 @@ def jobs(tier, seed):
         for cap in (0, 1, 2, 3):
             J.append(job(p, 2, False, cap=cap, suffix="_capacity"))
         if tier != "quick":
-            for cap in (0, 1, 2):
+            for cap in (0, 2):
                 J.append(job(p, 2, True, cap=cap, extra=["-DTTL31"], suffix="_capacity"))
+            J.append(job(p, 0, 2))
     J += misc_jobs(tier)
     for j in J:
         j.setdefault("mem_gb", 6)
